@@ -25,7 +25,14 @@ def run(cases, oracle, extra=None):
             counters['operators'] += 1
             counters['form:' + desc['form']] += 1
             try:
-                probs, nt = oracle(desc, op, exact)
+                from .pool import CaseTimeout
+                from .xstate import Timeout
+
+                try:
+                    with Timeout(600):   # watchdog: a reduce()/solve that never returns is a finding, not a hang
+                        probs, nt = oracle(desc, op, exact)
+                except CaseTimeout:
+                    probs, nt = [('did-not-terminate', 'the oracle (mv / reduce / as_matrix / jit) did not return within 600 s')], False
             except P.LibError as e:
                 probs, nt = [('library-raises', f'{e}\n{e.tb}')], False
             except Exception as e:  # noqa: BLE001
